@@ -109,7 +109,14 @@ def generate(rng, prop, tier, index):
                           'section': rng.choice(SECTIONS),
                           'k': rng.randint(0, 40)}
         steps.append(st)
-    return {'engine': NAME, 'seed': rng.randint(1, 10**6), 'outs': outs,
+    extra = {}
+    if rng.random() < 0.35:
+        extra = {'argstyle': 'rel', 'cwd': rng.choice(['root', 'in', 'out'])}
+    if rng.random() < 0.3:
+        extra['decoys'] = True
+    if rng.random() < 0.15:
+        extra['warmup'] = True
+    return {**extra, 'engine': NAME, 'seed': rng.randint(1, 10**6), 'outs': outs,
             'luafile': core.enc_bytes(
                 b'-- main\nmain_marker=%d\nfunction _draw() end\n'
                 % rng.randint(1, 99999)),
@@ -256,6 +263,44 @@ def execute(sc):
                 w.put(rel, data_fn())
                 written.add(rel)
 
+        # how file arguments are spelled, and from where
+        cwd_rel = {'root': '', 'in': 'in', 'out': 'out'}[sc.get('cwd', 'root')]
+        os.chdir(w.p(cwd_rel))
+
+        def A(rel):
+            if sc.get('argstyle', 'abs') == 'abs':
+                return w.p(rel)
+            return os.path.relpath(w.p(rel), w.p(cwd_rel))
+        if sc.get('decoys'):
+            # same-named carts in the PICO-8 carts folders under $HOME: never
+            # named by any argument, so they must never be used
+            decoy = refcodec.cart_from_spec({
+                'code': {'$txt': 'decoy_marker=1\n'},
+                'regions': {k: 900 + j for j, k in
+                            enumerate(refcodec.REGIONS)}})
+            for cd in ('home/.lexaloffle/pico-8/carts',
+                       'home/Library/Application Support/pico-8/carts',
+                       'home/AppData/Roaming/pico-8/carts'):
+                for nm in ('nothere.p8', 's0.p8', 's1.p8', 's2.p8',
+                           'thing.p8', 'in/nothere.p8', 'in/s0.p8',
+                           'in/s1.p8', 'in/s2.p8'):
+                    w.put(cd + '/' + nm, refcodec.encode_p8(decoy))
+                for nm in ('s0.p8.png', 's1.p8.png', 's2.p8.png',
+                           'in/s0.p8.png'):
+                    w.put(cd + '/' + nm, refcodec.encode_p8png(decoy))
+        if sc.get('warmup'):
+            # an unrelated build with require() ran earlier in this process
+            w.put('warm/main.lua', b'warm_main=1\nrequire("w0")\n')
+            w.put('warm/w0.lua', b'warm_w0=1\n')
+            try:
+                wrc = tool.main(['build', w.p('warm/out.p8'), '--lua',
+                                 w.p('warm/main.lua')])
+            except BaseException:
+                wrc = 'raised'
+            core.bump(res['probes'], 'warmup-build-with-require' if wrc == 0
+                      else 'warmup-build-failed')
+            w.err.seek(0)
+            w.err.truncate(0)
         outs_model = {}
         for tag in sorted(outs):
             o = outs[tag]
@@ -281,7 +326,7 @@ def execute(sc):
             out_rel = _out_rel(tag, outs)
             assign = st['assign']
             fail = st.get('fail')
-            argv = list(st.get('flags') or []) + ['build', w.p(out_rel)]
+            argv = list(st.get('flags') or []) + ['build', A(out_rel)]
             probe_rel = None
             write_plan = None
             uses_missing_out = False
@@ -292,14 +337,14 @@ def execute(sc):
                     cart = srcs[a[1]]
                     need(rel, lambda rel=rel, cart=cart:
                          refcodec.encode_any(rel, cart))
-                    argv += ['--' + sec, w.p(rel)]
+                    argv += ['--' + sec, A(rel)]
                 elif a[0] == 'out':
                     if outs_model[a[1]] is None:
                         uses_missing_out = True
-                    argv += ['--' + sec, w.p(_out_rel(a[1], outs))]
+                    argv += ['--' + sec, A(_out_rel(a[1], outs))]
                 elif a[0] == 'luafile':
                     need('in/main.lua', lambda: luafile)
-                    argv += ['--lua', w.p('in/main.lua')]
+                    argv += ['--lua', A('in/main.lua')]
                 elif a[0] == 'empty':
                     argv += ['--empty-' + sec]
             expect_fail = uses_missing_out
@@ -315,11 +360,11 @@ def execute(sc):
                     elif assign[sec][0] == 'empty':
                         need(_src_rel('p8', 0), lambda: refcodec.encode_p8(
                             srcs[0]))
-                        argv += ['--' + sec, w.p(_src_rel('p8', 0))]
+                        argv += ['--' + sec, A(_src_rel('p8', 0))]
                     else:
                         need(_src_rel('p8', 0), lambda: refcodec.encode_p8(
                             srcs[0]))
-                        argv += ['--' + sec, w.p(_src_rel('p8', 0)),
+                        argv += ['--' + sec, A(_src_rel('p8', 0)),
                                  '--empty-' + sec]
                     expect_fail = True
                 elif fkind in ('missing-file', 'enoent'):
@@ -331,7 +376,7 @@ def execute(sc):
                             written.discard(rel)
                         expect_fail = True
                     elif assign[sec][0] == 'none':
-                        argv += ['--' + sec, w.p('in/nothere.p8')]
+                        argv += ['--' + sec, A('in/nothere.p8')]
                         expect_fail = True
                     else:
                         fkind = None
@@ -339,20 +384,20 @@ def execute(sc):
                     if assign[sec][0] == 'none':
                         need('in/thing.txt', lambda: refcodec.encode_p8(
                             srcs[0]))
-                        argv += ['--' + sec, w.p('in/thing.txt')]
+                        argv += ['--' + sec, A('in/thing.txt')]
                         expect_fail = True
                     else:
                         fkind = None
                 elif fkind == 'lua-ext-for-data':
                     if sec != 'lua' and assign[sec][0] == 'none':
                         need('in/main.lua', lambda: luafile)
-                        argv += ['--' + sec, w.p('in/main.lua')]
+                        argv += ['--' + sec, A('in/main.lua')]
                         expect_fail = True
                     else:
                         fkind = None
                 elif fkind == 'wrong-ext-out':
                     probe_rel = out_rel + '.txt'
-                    argv[argv.index(w.p(out_rel))] = w.p(probe_rel)
+                    argv[argv.index(A(out_rel))] = A(probe_rel)
                     expect_fail = True
                 elif fkind == 'write-fault':
                     write_plan = {'kind': 'W-ERR', 'k': fail['k'],
@@ -522,6 +567,9 @@ def shrink(sc):
             if st['assign'][sec] != ['none']:
                 yield dict(sc, steps=steps[:i] + [dict(st, assign=dict(
                     st['assign'], **{sec: ['none']}))] + steps[i + 1:])
+    for k in ('decoys', 'warmup', 'argstyle', 'cwd'):
+        if sc.get(k):
+            yield {kk: v for kk, v in sc.items() if kk != k}
     for tag, o in sc['outs'].items():
         if o['prior'] == 'cart':
             yield dict(sc, outs=dict(sc['outs'], **{tag: {
